@@ -51,29 +51,56 @@ def flatAttrs : AttrList → Option FAttrs
       let xs ← flatAttrs rest
       pure (x :: xs)
 
+/-- declarations requested by `START_NS` that the next start tag writes -/
+def flatD1 (b : List (Str × Bool)) : Option Str → Option (List (Str × Bool))
+  | none => some []
+  | some u =>
+      if u = xmlNs then none
+      else if (defaultNs b).1 ≠ u then some [(u, false)] else some []
+
+/-- the declaration the element name needs (`b1` = bindings including `d1`) -/
+def flatD2 (b1 d1 : List (Str × Bool)) (t : QName) : Option (List (Str × Bool)) :=
+  if t.ns = xmlNs then none
+  else if !t.ns.isEmpty then
+    (if (defaultNs b1).1 = t.ns then some []
+     else if d1.isEmpty then some [(t.ns, true)] else none)
+  else
+    (if !(defaultNs b1).1.isEmpty && (defaultNs b1).2 then some [([], true)] else some [])
+
 /-- the miss path of the START/EMPTY branch up to the output: the declarations written on this
     tag (at most one on the lite domain), and the flattened data.  `none` = outside the domain. -/
 def flatStartCore (b : List (Str × Bool)) (pending : Option Str) (t : QName) (a : AttrList) :
-    Option (List (Str × Bool) × Str × FAttrs) := do
-  -- declarations requested by START_NS
-  let d1 : List (Str × Bool) ←
-    match pending with
-    | none => some []
-    | some u =>
-        if u = xmlNs then none
-        else if (defaultNs b).1 ≠ u then some [(u, false)] else some []
-  let b1 := d1 ++ b
-  -- the element name
-  let d2 : List (Str × Bool) ←
-    if t.ns = xmlNs then none
-    else if !t.ns.isEmpty then
-      (if (defaultNs b1).1 = t.ns then some []
-       else if d1.isEmpty then some [(t.ns, true)] else none)
-    else
-      (if !(defaultNs b1).1.isEmpty && (defaultNs b1).2 then some [([], true)] else some [])
-  let na ← flatAttrs a
-  let declared := d1 ++ d2          -- order of the xmlns attributes
-  pure (declared, t.loc, (declared.map fun d => (xmlns, d.1)) ++ na)
+    Option (List (Str × Bool) × Str × FAttrs) :=
+  match flatD1 b pending with
+  | none => none
+  | some d1 =>
+    match flatD2 (d1 ++ b) d1 t with
+    | none => none
+    | some d2 =>
+      match flatAttrs a with
+      | none => none
+      | some na => some (d1 ++ d2, t.loc, ((d1 ++ d2).map fun d => (xmlns, d.1)) ++ na)
+
+/-- the START branch after a cache miss -/
+def flatStartMiss (useCache : Bool) (st : FlatSt) (t : QName) (a : AttrList) : Option (FlatSt × List FEv) :=
+  match flatStartCore st.bindings st.pending t a with
+  | none => none
+  | some (declared, tn, fa) =>
+      let out : FEv := .start tn fa
+      let cache :=
+        if declared.isEmpty then (if useCache then (.start t a, out) :: st.cache else st.cache)
+        else []
+      some ({ bindings := declared.reverse ++ st.bindings, pending := none,
+              elems := (tn, declared.length) :: st.elems, cache := cache }, [out])
+
+/-- the EMPTY branch after a cache miss: the declarations go out of scope at once -/
+def flatEmptyMiss (useCache : Bool) (st : FlatSt) (t : QName) (a : AttrList) : Option (FlatSt × List FEv) :=
+  match flatStartCore st.bindings st.pending t a with
+  | none => none
+  | some (declared, tn, fa) =>
+      let out : FEv := .empty tn fa
+      let cache := if declared.isEmpty && useCache then (.empty t a, out) :: st.cache else st.cache
+      some ({ st with pending := none, cache := cache }, [out])
 
 /-- one event: new state and the events passed on; `none` = outside the lite domain -/
 def flatStep (useCache : Bool) (st : FlatSt) (ev : QEv) : Option (FlatSt × List FEv) :=
@@ -83,22 +110,11 @@ def flatStep (useCache : Bool) (st : FlatSt) (ev : QEv) : Option (FlatSt × List
       match (if useCache && st.pending.isNone then flatLookup st.cache ev else none) with
       | some (.start t' a') => some ({ st with elems := (t', 0) :: st.elems }, [.start t' a'])
       | some out => some (st, [out])
-      | none => do
-          let (declared, tn, fa) ← flatStartCore st.bindings st.pending t a
-          let out : FEv := .start tn fa
-          let cache :=
-            if declared.isEmpty then (if useCache then (ev, out) :: st.cache else st.cache)
-            else []
-          pure ({ bindings := declared.reverse ++ st.bindings, pending := none,
-                  elems := (tn, declared.length) :: st.elems, cache := cache }, [out])
+      | none => flatStartMiss useCache st t a
   | .empty t a =>
       match (if useCache && st.pending.isNone then flatLookup st.cache ev else none) with
       | some out => some (st, [out])
-      | none => do
-          let (declared, tn, fa) ← flatStartCore st.bindings st.pending t a
-          let out : FEv := .empty tn fa
-          let cache := if declared.isEmpty && useCache then (ev, out) :: st.cache else st.cache
-          pure ({ st with pending := none, cache := cache }, [out])
+      | none => flatEmptyMiss useCache st t a
   | .end_ t =>
       match st.elems with
       | (tn, count) :: rest =>
@@ -116,10 +132,13 @@ def flatStep (useCache : Bool) (st : FlatSt) (ev : QEv) : Option (FlatSt × List
 
 def flatten (useCache : Bool) : FlatSt → List QEv → Option (List FEv)
   | _, [] => some []
-  | st, ev :: rest => do
-      let r ← flatStep useCache st ev
-      let out ← flatten useCache r.1 rest
-      pure (r.2 ++ out)
+  | st, ev :: rest =>
+      match flatStep useCache st ev with
+      | none => none
+      | some r =>
+          match flatten useCache r.1 rest with
+          | none => none
+          | some out => some (r.2 ++ out)
 
 def flatInit (_ : Method) : FlatSt := {}
 
